@@ -14,8 +14,8 @@ pub trait VSink: Sized {
             //@label - vsink.write.accepts_prefix
             r is Ok ==> r->Ok_0 <= buf@.len() && final(self).log() == old(self).log() + buf@.subrange(0, r->Ok_0 as int),
             //@label - vsink.write.total_fits_u64
-            // ASSUMPTION (physical): a sink never accepts 2^64 bytes in total
-            r is Ok ==> final(self).log().len() <= u64::MAX,
+            // ASSUMPTION (physical): a sink never accepts 2^63 bytes (8 EiB) in total
+            r is Ok ==> final(self).log().len() <= 0x7fff_ffff_ffff_ffff,
             //@label - vsink.write.err_accepts_nothing
             r is Err ==> final(self).log() == old(self).log(),
             //@label - vsink.write.flushed_unchanged
@@ -41,7 +41,7 @@ pub trait VSink: Sized {
             //@label - vsink.finalize.appends_only
             final(self).log().len() >= old(self).log().len() && final(self).log().subrange(0, old(self).log().len() as int) == old(self).log(),
             //@label - vsink.finalize.total_fits_u64
-            final(self).log().len() <= u64::MAX,
+            final(self).log().len() <= 0x7fff_ffff_ffff_ffff,
     ;
 }
 
